@@ -101,6 +101,11 @@ pub fn parse_edge(t: &mut Toks) -> E {
     })
 }
 
+/// a weight-valued observation of a case run with a dyadic weight scale (obs::WSCALE), scaled back
+fn enc_ws(x: f64) -> [i64; 2] {
+    enc_w(x / wfactor())
+}
+
 pub fn edge_row(e: &Edge<i64, i64>) -> Vec<i64> {
     let w = enc_w(e.weight / wfactor());
     let a = enc_oa(&e.attributes);
@@ -197,7 +202,7 @@ pub fn snapshot_k(g: &G, o: &mut Out, off: i64) {
         for (i, r) in m.iter().enumerate() {
             rows.push(vec![i as i64, -1, 0, 0]);
             for (j, w) in r.iter() {
-                let e = enc_w(*w);
+                let e = enc_ws(*w);
                 rows.push(vec![i as i64, *j as i64, e[0], e[1]]);
             }
         }
@@ -235,7 +240,7 @@ fn opt_f64(kind: i64, r: Option<Option<f64>>, o: &mut Out) {
         None => o.obs(1, &[vec![PANIC]], &[]),
         Some(None) => o.obs(kind, &[vec![0, 0, 0]], &[]),
         Some(Some(x)) => {
-            let e = enc_w(x);
+            let e = enc_ws(x);
             o.obs(kind, &[vec![1, e[0], e[1]]], &[])
         }
     }
@@ -357,7 +362,7 @@ pub fn query(g: &G, t: &mut Toks, o: &mut Out) {
                 None => o.obs(1, &[vec![PANIC]], &[]),
                 Some((n, m, s0, s1, hw)) => {
                     let a = enc_w(s0);
-                    let b = enc_w(s1);
+                    let b = enc_ws(s1);
                     o.obs(
                         119,
                         &[vec![n as i64, m as i64, a[0], a[1], b[0], b[1], hw as i64]],
@@ -447,7 +452,7 @@ pub fn query(g: &G, t: &mut Toks, o: &mut Out) {
                     let rows: Vec<Vec<i64>> = m
                         .iter()
                         .map(|(k, v)| {
-                            let e = enc_w(*v);
+                            let e = enc_ws(*v);
                             vec![*k, e[0], e[1]]
                         })
                         .collect();
@@ -467,7 +472,7 @@ pub fn query(g: &G, t: &mut Toks, o: &mut Out) {
                     let rows: Vec<Vec<i64>> = m
                         .iter()
                         .map(|(k, v)| {
-                            let e = enc_w(*v);
+                            let e = enc_ws(*v);
                             vec![*k, e[0], e[1]]
                         })
                         .collect();
@@ -498,7 +503,7 @@ pub fn query(g: &G, t: &mut Toks, o: &mut Out) {
             if let Some(Ok(m)) = r {
                 let mut rows = vec![];
                 for (val, (i, j)) in m.iter() {
-                    let e = enc_w(*val);
+                    let e = enc_ws(*val);
                     rows.push(vec![i as i64, j as i64, e[0], e[1]]);
                 }
                 o.obs(1144, &rows, &[]);
